@@ -1,7 +1,7 @@
 SPEC_PART = dict(
     props_file="C18_bloom",
-    legs=[dict(family="bloom", focus="size", oracles=["prop_layout"], profiles=["debug"], n_quick=16, n_thorough=48)],
-    trusted=[],
+    legs=[dict(family="bloom", focus="size", oracles=["prop_layout"], profiles=["debug"], n_quick=16, n_thorough=48, panic_is_violation=True)],
+    trusted=["bloom: ops 18 (clone probe) and 19 (round-trip check) are answered by the model with a constant justified by a theorem (no false negatives; round trip + size formula): they are Spec checks on the crate (plus panic detection), not model-vs-crate comparisons of computed positions / bytes; op 19 is used by C17's legs; the C18 leg compares whole images (op 9); used for filters with thousands of hash functions and for 2^20-bit filters"],
     assumptions=[],
     covers="bloom: |serialize f| = 24 (empty) or 32 + 8 * words for ANY filter (c18_bloom_image_size); after any history the word "
            "count is ceil(num_bits / 64) of the constructor argument (c18_bloom_size_fixed_by_constructor); tie: serialize().len() "
